@@ -39,7 +39,7 @@ def print_real(value: complex, unit: str = '', precision: int = 3) -> str:
 def print_sinosoidal(value: complex, unit: str = '', precision: int = 3, w: float = 0, sin: bool = False, deg: bool = False, hertz: bool = False) -> str:
     abs_value = ScientificFloat(value=abs(value), unit=unit, precision=precision, use_exp_prefix=True, exp_prefixes={-6: 'u', -3: 'm', 3: 'k'})
     phase_value = phase(value)
-    phase_value+= -pi/2 if sin else 0
+    phase_value+= pi/2 if sin else 0
     abs_phase_value = ScientificFloat(value=abs(degrees(phase_value)), unit='°', precision=precision) if deg else ScientificFloat(value=abs(phase_value), precision=precision)
     label = str(abs_value)
     if w == 0:
